@@ -18,5 +18,5 @@ Next == \/ /\ blk = 0 /\ blk' \in {1 + K * s : s \in 0..((N - 1) \div K)}
         \/ /\ blk > 0 /\ (blk % K) # 0 /\ blk < N /\ blk' = blk + 1
 Shape(r) == Len(r.o) = Len(Sd[r.s].ev) + 1 /\ \A k \in 1..Len(r.o) : Len(r.o[k].pr) = Len(Wd[r.w].msgs)
 PBad(r) == IF Shape(r) THEN PRun(Wd[r.w], Sd[r.s].ev, r.o) ELSE {<<<<"crashed-or-truncated">>, 0>>}
-Judge == blk = 0 \/ LET bad == PBad(Recs[blk]) IN bad = {} \/ \A x \in bad : ~PrintT(<<"VF", "BAD", blk, x[2], x[1]>>)
+Judge == blk = 0 \/ LET bad == PBad(Recs[blk]) IN bad = {} \/ ((\A x \in bad : PrintT(<<"VF", "BAD", blk, x[2], x[1]>>)) /\ FALSE)
 =============================================================================
